@@ -3,7 +3,7 @@ import os, sys
 sys.path.insert(0, os.path.join(os.path.dirname(os.path.abspath(__file__)), '..', 'lib'))
 import vcommon as V
 
-PROPS = ['props/C18.v']
+PROPS = ['props/C18.v', 'props/C18_src.v']
 ASSUMPTIONS = [
     "strings.Replacer and SubstituteParameters are modelled (model/Subst.v), not assumed; the model is compared with the Go code on every run",
     "regexp ^[a-zA-Z0-9_-]+$ is modelled as 'non-empty and every byte in the class'",
